@@ -1,14 +1,14 @@
-\* thorough tier: the strata with up to three value positions and two redirections
-SPECIFICATION StrataSpec
+\* the strata of connection age, enumerated completely (every run)
+SPECIFICATION ConnStrataSpec
 CONSTANTS
   Keys = {"k1"}
-  MaxOps = 4
-  MaxRedirects = 2
+  MaxOps = 5
+  MaxRedirects = 0
   FixOnce = TRUE
-  MaxVals = 3
+  MaxVals = 1
   HookDepth = 2
   OwnBytes = TRUE
-  Nodes = {}
+  Nodes = {"a", "b"}
   ConnConfig = "live"
 INVARIANTS StoredForm ReadBack OnlyWhenEnabled OffMeansOff
 CHECK_DEADLOCK FALSE
